@@ -10,6 +10,10 @@ from selftest.mutate import run_variant
 from selftest.variants import V
 
 
+def _what(g):
+    return {"patch": g["patch"]} if "patch" in g else {"edits": g["edits"]}
+
+
 def run(props=None, verbose=False, tier="quick", quiet=False, with_global=False):
     vs = [v for v in V if not props or v["prop"] in props]
     if with_global and props:
@@ -17,7 +21,7 @@ def run(props=None, verbose=False, tier="quick", quiet=False, with_global=False)
         from selftest.variants import G
         for g in G:
             for p in sorted(props):
-                vs.append({"prop": p, "name": "global twin: " + g["name"], "edits": g["edits"], "expect": "silent" if g["strict"] else "not-violated"})
+                vs.append(dict({"prop": p, "name": "global twin: " + g["name"], "expect": "silent" if g["strict"] else "not-violated"}, **_what(g)))
     with ThreadPoolExecutor(16) as ex:
         res = list(ex.map(lambda v: run_variant(v, tier), vs))
     bad = 0
@@ -44,7 +48,7 @@ def run_global():
     jobs = []
     for g in G:
         for i in range(1, 21):
-            jobs.append({"prop": "C%02d" % i, "name": g["name"], "edits": g["edits"], "expect": "silent" if g["strict"] else "not-violated"})
+            jobs.append(dict({"prop": "C%02d" % i, "name": g["name"], "expect": "silent" if g["strict"] else "not-violated"}, **_what(g)))
     with ThreadPoolExecutor(16) as ex:
         res = list(ex.map(lambda v: run_variant(v, "quick"), jobs))
     bad = 0
